@@ -164,6 +164,13 @@ def run(ctx):
         elif f[0] == "EVALS":
             ctx.cov["evaluations"] += int(f[1])
             ctx.notes["search_evaluations"] = int(f[1])
+            ctx.notes["hygiene_oracles"] = (
+                "harness/c08/hygiene.go (search): every copySamples / copySamplesTrak call of File.CopySampleData is repeated with the work "
+                "buffer as a sub-slice of a larger buffer (16 guard bytes in front and behind): same outcome and bytes, guards intact; after "
+                "every successful MdatBox.ReadData the harness appends 8 bytes to the returned slice and compares the in-memory payload "
+                "with the file (the result must not carry capacity into the media data; writing INSIDE a zero-copy view is not examined); "
+                "on every fourth range a refused query (beyond the payload) is put to both handles and the four queries are asked again "
+                "in the opposite order: same answers.")
     fails += hook_search(ctx, exe)
     for f in fails:
         ctx.failing_input(f[1], f[2], f[3], f[4])
